@@ -263,6 +263,11 @@ impl<A, C: Clock, F: Filter, R: Rng, S: PtpInstanceStateMutex> Port<'_, InBmca, 
                 } else if self.multiport_disable.is_some() {
                     if !matches!(self.port_state, PortState::Passive) {
                         self.set_forced_port_state(PortState::Passive);
+
+                        // a passive port relies on the announce receipt timeout to recover
+                        let duration = self.config.announce_duration(&mut self.rng);
+                        let reset_announce = PortAction::ResetAnnounceReceiptTimer { duration };
+                        self.lifecycle.pending_action = actions![reset_announce];
                     }
                 } else {
                     match self.port_state {
@@ -282,7 +287,12 @@ impl<A, C: Clock, F: Filter, R: Rng, S: PtpInstanceStateMutex> Port<'_, InBmca, 
             }
             RecommendedState::P1(_) | RecommendedState::P2(_) => match self.port_state {
                 PortState::Listening | PortState::Slave(_) | PortState::Master => {
-                    self.set_forced_port_state(PortState::Passive)
+                    self.set_forced_port_state(PortState::Passive);
+
+                    // a passive port relies on the announce receipt timeout to recover
+                    let duration = self.config.announce_duration(&mut self.rng);
+                    let reset_announce = PortAction::ResetAnnounceReceiptTimer { duration };
+                    self.lifecycle.pending_action = actions![reset_announce];
                 }
                 PortState::Passive | PortState::Faulty => {}
             },
